@@ -5,6 +5,7 @@ package __PKG__
 
 import (
 	"bytes"
+	"context"
 	"io"
 	"os"
 	"sync"
@@ -140,4 +141,13 @@ func verifModelFStat(f *os.File) (os.FileInfo, error) {
 		return nil, verifENOENT()
 	}
 	return &verifFileInfo{name: "", size: int64(size), mode: os.FileMode(mode)}, nil
+}
+
+// context.Cause: the cause recorded at cancellation, which is the context's error unless the canceller gave another one
+// (harness contexts expose theirs through VerifCause)
+func verifModelContextCause(c context.Context) error {
+	if v, ok := c.(interface{ VerifCause() error }); ok {
+		return v.VerifCause()
+	}
+	return c.Err()
 }
